@@ -1,7 +1,132 @@
+/-
+  CB.Driver.C09 — line protocol of property C09 (pow, multi-exponentiation, lincomb).
+
+    c09.pow    <kind> <form> <n> <m> <ne> <base> <exp>        kind ∈ dyn const boxed; form ∈ m (inherent) t (Pow trait)
+    c09.powb   <kind> <form> <n> <m> <ne> <base> <exp> <k>    pow_bounded_exp; form ∈ m | t (PowBoundedExp trait)
+    c09.multi  <kind> <form> <n> <m> <ne> <b,e;b,e;…|->        MultiExponentiate; form ∈ arr | slice
+    c09.multib <kind> <form> <n> <m> <ne> <k> <b,e;…|->        MultiExponentiateBoundedExp
+    c09.lincomb <kind> <n> <m> <a,b;a,b;…|->                  lincomb_vartime
+  `n` limbs of the modulus/bases, `ne` limbs of the exponents; bases / a / b are plain integers (converted with
+  `new`). Output: `<retrieve()> <montgomery form>` (boxed: both as `<nlimbs>:<hex>`), always `L1 ;; L0`.
+-/
 import CB.Driver.Util
+import CB.Model.Pow
+import CB.Model.Lincomb
 namespace CB
+open CB.Monty
+
+namespace C09drv
+
+def initState (kind : String) (ms : List Nat) : Option State :=
+  match kind with
+  | "dyn" => some { rep := .dyn, params := paramsNew ms, store := [] }
+  | "const" => some { rep := .const, params := paramsConst ms, store := [] }
+  | "boxed" => some { rep := .boxed, params := paramsBoxed ms, store := [] }
+  | _ => none
+
+def parsePairs (s : String) : Option (List (Nat × Nat)) :=
+  if s = "-" then some [] else
+  (s.splitOn ";").mapM fun p =>
+    match p.splitOn "," with
+    | [a, b] => match hexToNat? a, hexToNat? b with
+      | some a, some b => some (a, b)
+      | _, _ => none
+    | _ => none
+
+def outTok (st : State) (z : List Nat) : String :=
+  match st.rep with
+  | .boxed => s!"{limbsHexLen (opRetrieve st z)} {limbsHexLen z}"
+  | _ => s!"{limbsHex (opRetrieve st z)} {limbsHex z}"
+
+def specTok (st : State) (n m r : Nat) : String :=
+  match st.rep with
+  | .boxed => s!"{n}:{natToHex r} {n}:{natToHex ((r * B ^ n) % m)}"
+  | _ => s!"{natToHex r} {natToHex ((r * B ^ n) % m)}"
+
+/-- single exponentiation, `bits` already resolved. -/
+def runPow (st : State) (n m ne base e bits : Nat) : String :=
+  let p := st.params
+  let x := opNew st base
+  let el := toLimbs ne e
+  if Pow.indexPanics bits [el] then "panic" else
+  let z := match st.rep with
+    | .boxed => Pow.bPowMont x el bits p.modulus p.one p.modNegInv
+    | _ => Pow.powMont x el bits p.modulus p.one p.modNegInv
+  outTok st z ++ " ;; " ++ specTok st n m (Pow.modPow m (base % m) (e % 2 ^ bits))
+
+def multiSpecFast (m bits : Nat) : List (Nat × Nat) → Nat
+  | [] => 1 % m
+  | (x, e) :: rest => (Pow.modPow m (x % m) (e % 2 ^ bits) * multiSpecFast m bits rest) % m
+
+def runMulti (st : State) (form : String) (n m ne bits : Nat) (bes : List (Nat × Nat)) : Option String :=
+  let p := st.params
+  let l := bes.map fun be => (opNew st be.1, toLimbs ne be.2)
+  -- MontyForm impls assert a non-empty input; the ConstMontyForm impls do not
+  if bes.isEmpty && st.rep == .dyn then some "panic" else
+  if Pow.indexPanics bits (l.map (·.2)) then some "panic" else
+  match st.rep, form with
+  | .boxed, _ => none
+  | _, "arr" => some (outTok st (Pow.multiExpArray l bits p.modulus p.one p.modNegInv) ++ " ;; "
+                       ++ specTok st n m (multiSpecFast m bits bes))
+  | _, "slice" => some (outTok st (Pow.multiExpSlice l bits p.modulus p.one p.modNegInv) ++ " ;; "
+                       ++ specTok st n m (multiSpecFast m bits bes))
+  | _, _ => none
+
+def runLincomb (st : State) (n m : Nat) (abs : List (Nat × Nat)) : String :=
+  let p := st.params
+  let l := abs.map fun ab => (opNew st ab.1, opNew st ab.2)
+  -- MontyForm / BoxedMontyForm::lincomb_vartime: documented panic on empty input
+  if abs.isEmpty && st.rep != .const then "panic" else
+  let z := match st.rep with
+    | .boxed => Lincomb.lincombBoxed l p.modulus p.modNegInv p.modLeadingZeros
+    | _ => Lincomb.lincombFixed l p.modulus p.modNegInv p.modLeadingZeros
+  outTok st z ++ " ;; " ++ specTok st n m (Lincomb.sumSpec m (abs.map fun ab => (ab.1 % m, ab.2 % m)))
+
+end C09drv
+open C09drv
 
 /-- operations of property C09 (op names start with `c09.`) -/
-def dispatchC09 : Dispatch := fun _ _ => none
+def dispatchC09 : Dispatch := fun op args =>
+  match op, args with
+  | "c09.pow", [kind, form, n, m, ne, base, e] =>
+    match n.toNat?, hexToNat? m, ne.toNat?, hexToNat? base, hexToNat? e with
+    | some n, some m, some ne, some base, some e =>
+      match initState kind (toLimbs n m) with
+      | some st =>
+        if (form = "m" || (form = "t" && kind != "boxed")) && m % 2 = 1 && n > 0 then
+          some (runPow st n m ne base e (64 * ne))
+        else badArgs
+      | none => badArgs
+    | _, _, _, _, _ => badArgs
+  | "c09.powb", [kind, form, n, m, ne, base, e, k] =>
+    match n.toNat?, hexToNat? m, ne.toNat?, hexToNat? base, hexToNat? e, k.toNat? with
+    | some n, some m, some ne, some base, some e, some k =>
+      match initState kind (toLimbs n m) with
+      | some st =>
+        if (form = "m" || form = "t") && m % 2 = 1 && n > 0 then some (runPow st n m ne base e k) else badArgs
+      | none => badArgs
+    | _, _, _, _, _, _ => badArgs
+  | "c09.multi", [kind, form, n, m, ne, bes] =>
+    match n.toNat?, hexToNat? m, ne.toNat?, parsePairs bes with
+    | some n, some m, some ne, some bes =>
+      match initState kind (toLimbs n m) with
+      | some st => if m % 2 = 1 && n > 0 then (runMulti st form n m ne (64 * ne) bes).orElse (fun _ => badArgs) else badArgs
+      | none => badArgs
+    | _, _, _, _ => badArgs
+  | "c09.multib", [kind, form, n, m, ne, k, bes] =>
+    match n.toNat?, hexToNat? m, ne.toNat?, k.toNat?, parsePairs bes with
+    | some n, some m, some ne, some k, some bes =>
+      match initState kind (toLimbs n m) with
+      | some st => if m % 2 = 1 && n > 0 then (runMulti st form n m ne k bes).orElse (fun _ => badArgs) else badArgs
+      | none => badArgs
+    | _, _, _, _, _ => badArgs
+  | "c09.lincomb", [kind, n, m, abs] =>
+    match n.toNat?, hexToNat? m, parsePairs abs with
+    | some n, some m, some abs =>
+      match initState kind (toLimbs n m) with
+      | some st => if m % 2 = 1 && n > 0 then some (runLincomb st n m abs) else badArgs
+      | none => badArgs
+    | _, _, _ => badArgs
+  | _, _ => none
 
 end CB
